@@ -60,6 +60,7 @@ def chunk(ws, n):
 from fractions import Fraction as _F
 GRID = [_F(0), '-0', _F(1), _F(-1), _F(2), _F(3), _F(1, 2), _F(-5, 2), _F(7), _F(29, 4), _F(1, 8), _F(-11)]
 GRID_INEXACT = [_F(1, 3), _F(-1, 10), _F(355, 113), _F(10, 7)]
+COMPOSITIONAL_ABOVE = 5
 SPECIALS = [0.0, -0.0, 1.0, -1.0, 0.5, 2.0, 3.0, 1e-3, 1e3, 0.1, 1e10, -1e-10, 7.25, -2.5, 1.0 / 3.0]
 
 
@@ -262,6 +263,163 @@ class Ctx:
             o.reason = 'solver: ' + v
         return o
 
+    # ------------------------------------------------------------------ REAL / ROUND obligations
+    def round_bound(self, o, term, spec, w, K, positive=True, mag=None, assume=None, key=None, mode='ROUND',
+                    out_index=0, underflow=False):
+        """obligation (ROUND): for all real inputs satisfying the assumptions and all admissible rounding errors,
+        |impl - spec| <= K * 2^-p * M  where M = |spec| or mag(A, xs).  (REAL): impl == spec exactly.
+        spec/mag/assume are functions (A, xs) -> value / value / list of constraints over the Z3Alg."""
+        from .algebra import Z3Alg
+        o.key = key or o.oid
+        o.mode = mode
+        if term is None:
+            o.reason = o.reason or 'missing term'
+            return o
+        T = term.ty
+        nops = tm.count_ops(term)
+        if mode == 'ROUND' and nops > COMPOSITIONAL_ABOVE:
+            done = self.round_compositional(o, term, spec, w, K, positive, mag, assume, out_index, nops)
+            if done:
+                return o
+        try:
+            it = modes.Round(underflow=underflow) if mode == 'ROUND' else modes.Real()
+            r = it.ev(term)
+        except modes.ModeError as e:
+            o.reason = str(e)
+            return o
+        A = Z3Alg()
+        xs = [z3.Real('x%d' % i) for i in range(w.n_in)]
+        E = spec(A, xs)
+        extra = list(assume(A, xs)) if assume is not None else []
+        undefined = [z3.Not(c) for c in it.side]
+        if mode == 'ROUND':
+            M = mag(A, xs) if mag is not None else A.abs(E)
+            u = z3.RealVal('1/%d' % (1 << tm.FPREC[T]))
+            bad = z3.Or(r - E > K * u * M, E - r > K * u * M, *undefined)
+        else:
+            bad = z3.Or(r != E, *undefined)
+        cons = list(getattr(it, 'rcons', [])) + it.defs + A.defs + ([x > 0 for x in xs] if positive else []) + extra + [bad]
+        o.hash = hashlib.md5((o.oid + str(term.id)).encode()).hexdigest()
+        o.syntactic = False
+        rp = self.round_replay(w, spec, K if mode == 'ROUND' else 0, mag, out_index, positive)
+        return self.decide(o, cons, w, rp, grid=False)
+
+    def round_compositional(self, o, term, spec, w, K, positive, mag, assume, out_index, nops):
+        """large expressions: solver-checked local error lemmas composed bottom-up (phqv/fea.py), then one
+        polynomial inequality  c*u*M + |E_impl - E_spec| <= K*u*M_spec  over the inputs only"""
+        from . import fea
+        from .algebra import Z3Alg
+        T = term.ty
+        try:
+            an = fea.Analysis(T, positive, timeout_ms=min(self.timeout, 30000))
+            nd = an.run(term)
+        except (fea.Abort, modes.ModeError) as e:
+            o.desc += ' [compositional analysis not applicable: %s]' % e
+            wit = getattr(e, 'witness', None)
+            if wit is not None and wit[0] > 0:
+                # conditioning query: inputs where the operand's magnitude dwarfs its value (cancellation); the
+                # model is only a candidate, decided by replay against the real code
+                from .algebra import Z3Alg as _A
+                c_, M_, E_ = wit
+                xs_ = [z3.Real('x%d' % i) for i in range(w.n_in)]
+                A_ = _A()
+                ex_ = list(assume(A_, xs_)) if assume is not None else []
+                big = 1 << (tm.FPREC[T] // 2)
+                cons_ = an.real.defs + A_.defs + ([x > 0 for x in xs_] if positive else []) + ex_ + \
+                    [E_ > 0, fea.rv(c_) * M_ > big * E_]
+                rp_ = self.round_replay(w, spec, K, mag, out_index, positive)
+                o.hash = hashlib.md5((o.oid + 'cond').encode()).hexdigest()
+                self.decide(o, cons_, w, rp_, grid=False)
+                if o.verdict == 'violated':
+                    o.desc += ' [found by conditioning query + native replay]'
+                    return True
+                o.verdict, o.reason = 'inconclusive', ''
+            return False
+        A = Z3Alg()
+        xs = [z3.Real('x%d' % i) for i in range(w.n_in)]
+        E = spec(A, xs)
+        M = mag(A, xs) if mag is not None else A.abs(E)
+        extra = list(assume(A, xs)) if assume is not None else []
+        u = fea.rv(an.u)
+        diff = nd.E - E
+        undefined = [z3.Not(c) for c in an.real.side]
+        bad = z3.Or(fea.rv(nd.c) * u * nd.M + A.abs(diff) > K * u * M, *undefined)
+        cons = an.real.defs + A.defs + ([x > 0 for x in xs] if positive else []) + extra + [bad]
+        o.hash = hashlib.md5((o.oid + 'comp' + str(term.id)).encode()).hexdigest()
+        o.syntactic = False
+        o.desc += ' [compositional: %d rounding operations, %d solver-checked local lemmas, propagated constant c = %.3f]' % (
+            nops, an.lemmas_used, float(nd.c))
+        rp = self.round_replay(w, spec, K, mag, out_index, positive)
+        self.decide(o, cons, w, rp, grid=False)
+        self.out.setdefault('lemmas', 0)
+        self.out['lemmas'] = len(fea._lemma_cache)
+        return True
+
+    def round_replay(self, w, spec, K, mag, out_index, positive):
+        """realisation search for one abstract counterexample: the model point rounded into the type, its
+        neighbours and power-of-two rescalings are run through the natively compiled wrapper; the error is measured
+        exactly (Fractions) in ulps of the reference magnitude."""
+        from .algebra import FracAlg, ulp
+        T = w.out_ty
+        p, emin = tm.FPREC[T], tm.FEMIN[T]
+
+        def measure(xs):
+            o, io = self.unit.call_native(w, xs)
+            got = o[out_index]
+            fx = [core.np_to_frac(x) for x in xs]
+            A = FracAlg()
+            E = spec(A, fx)
+            M = mag(A, fx) if mag is not None else abs(E)
+            if not np.isfinite(got):
+                return float('inf'), got, E
+            err = abs(core.np_to_frac(got) - E)
+            return float(err / ulp(p, emin, M)), got, E
+
+        def rp(xs):
+            t = H.NPT[w.in_ty]
+            cands = [list(xs)]
+            rng = np.random.default_rng(12345)
+            pT = tm.FPREC[w.in_ty]
+            for _ in range(48):
+                # multi-scale relative perturbations (from one ulp up to 2^-p/2) keep near-cancellations alive
+                c = []
+                for x in xs:
+                    r_ = int(rng.integers(0, pT // 2 + 1))
+                    s_ = int(rng.integers(-3, 4))
+                    c.append(t(x) * (t(1) + t(s_) * t(2.0) ** t(-(pT - 1 - r_))))
+                cands.append(c)
+            for sc in (1.0, 3.0, 1e-3, 1e3, 7.0, 1e-6, 1e6):
+                for _ in range(6):
+                    c = [t(x) * t(sc) * t(1.0 + 0.37 * rng.random()) for x in xs]
+                    cands.append(c)
+            worst = (-1.0, None, None, None)
+            for c in cands:
+                if positive and any(not (v > 0) for v in c):
+                    continue
+                try:
+                    e, got, E = measure(c)
+                except (ValueError, ZeroDivisionError, OverflowError):
+                    continue
+                if e > worst[0]:
+                    worst = (e, c, got, E)
+                if e > max(K, 0.5) * 1.0 and e != float('inf'):
+                    break
+            e, c, got, E = worst
+            if c is None:
+                return False, 'no admissible realisation'
+            rp.case['expected_note'] = 'error %.3g ulps (allowed %s)' % (e, K)
+            rp.case['inputs_override'] = [core.hexf(v) for v in c]
+            A_ = FracAlg()
+            fx_ = [core.np_to_frac(v) for v in c]
+            M_ = mag(A_, fx_) if mag is not None else abs(E)
+            rp.case.update({'exact': '%d/%d' % (E.numerator, E.denominator), 'magnitude': '%d/%d' % (M_.numerator, M_.denominator),
+                            'K': K, 'out_index': out_index})
+            txt = 'inputs=%s impl=%s exact=%.17g error=%.4g ulps (allowed %s)' % ([core.hexf(v) for v in c], core.hexf(got) if np.isfinite(got) else repr(got),
+                                                                               float(E), e, K)
+            return (e > K if K else e > 0), txt
+        rp.case = {'kind': 'ulp', 'impl': w.name}
+        return rp
+
     def save_case(self, o, xs, case, ks=()):
         prop = self.spec.payload.get('prop', 'CXX') if isinstance(self.spec.payload, dict) else 'CXX'
         names = [case.get('impl'), case.get('ref')]
@@ -271,7 +429,7 @@ class Ctx:
                   'extra_src': self.spec.extra_src,
                   'wrappers': [{'name': w.name, 'in_ty': w.in_ty, 'n_in': w.n_in, 'out_ty': w.out_ty, 'n_out': w.n_out,
                                 'n_iout': w.n_iout, 'n_iin': w.n_iin, 'body': w.body} for w in ws],
-                  'inputs': [core.hexf(x) for x in xs], 'iinputs': list(ks), 'observed': o.reason})
+                  'inputs': c.get('inputs_override') or [core.hexf(x) for x in xs], 'iinputs': list(ks), 'observed': o.reason})
         return core.write_replay(prop, o.oid, c)
 
     def native_pair_replay(self, w_impl, w_ref):
